@@ -38,11 +38,13 @@ def prepare(scratch):
         sh(["git", "checkout", "-q", "--", "."], cwd=repo)
         sh(["git", "clean", "-fdq"], cwd=repo)
         # follow /repo's working tree (new fix commits) without losing the build cache
-        sh(["rsync", "-a", "--exclude", "target", "--exclude", ".git", "--delete", "/repo/", repo + "/"])
+        # content comparison, and no time stamps copied: a file reverted by the checkout above is newer than the last
+        # build (which contained the previous patch) and must stay newer, or cargo would reuse that build
+        sh(["rsync", "-a", "-c", "--no-times", "--exclude", "target", "--exclude", ".git", "--delete", "/repo/", repo + "/"])
         sh(["git", "add", "-A"], cwd=repo)
         sh(["git", "-c", "user.email=s@t", "-c", "user.name=s", "commit", "-qm", "sync"], cwd=repo)
     os.makedirs(verif, exist_ok=True)
-    sh(["rsync", "-a", "--delete", "--exclude", "target*", "--exclude", ".git", "--exclude", "evidence", "--exclude", "seeded", ROOT + "/", verif + "/"])
+    sh(["rsync", "-a", "-c", "--no-times", "--delete", "--exclude", "target*", "--exclude", ".git", "--exclude", "evidence", "--exclude", "seeded", ROOT + "/", verif + "/"])
     os.makedirs(os.path.join(verif, "evidence"), exist_ok=True)
     for f in ["harness/Cargo.toml"]:
         p = os.path.join(verif, f)
